@@ -7,6 +7,7 @@ import (
 	"go/types"
 	"math/big"
 	"os"
+	"sort"
 	"strings"
 	"sync"
 
@@ -255,6 +256,10 @@ func (ex *Exec) run(st *State, frID int, b *ssa.BasicBlock, idx int, prev *ssa.B
 			res := make([]Val, len(in.Results))
 			for j, r := range in.Results {
 				res[j] = ex.val(st, fr, r)
+			}
+			if fr.Fn == ex.fn {
+				// which return statement of the function under verification this is (text of its source line)
+				ex.retSite = ex.retLabel(in)
 			}
 			k(st, res)
 			return
@@ -1276,4 +1281,35 @@ func wrapMul64(x, y Term) Term {
 	lo, hi := BigT(new(big.Int).Neg(pow2(63))), BigT(pow2(63))
 	wrapped := Sub(App(SInt, "mod", Add(p, BigT(pow2(63))), BigT(pow2(64))), BigT(pow2(63)))
 	return Ite(And(Le(lo, p), Lt(p, hi)), p, wrapped)
+}
+
+// retLabel names a return statement of the function under verification: its source text plus its ordinal among the
+// return statements with the same text (in source order) -- stable under edits elsewhere in the file.
+func (ex *Exec) retLabel(in *ssa.Return) string {
+	if ex.retLabels == nil {
+		ex.retLabels = map[ssa.Instruction]string{}
+		type rp struct {
+			in  ssa.Instruction
+			pos int
+			txt string
+		}
+		var rs []rp
+		for _, b := range ex.fn.Blocks {
+			for _, i := range b.Instrs {
+				if r, ok := i.(*ssa.Return); ok && r.Pos().IsValid() {
+					rs = append(rs, rp{r, int(r.Pos()), ex.srcLine(r)})
+				}
+			}
+		}
+		sort.Slice(rs, func(a, b int) bool { return rs[a].pos < rs[b].pos })
+		n := map[string]int{}
+		for _, r := range rs {
+			n[r.txt]++
+			ex.retLabels[r.in] = fmt.Sprintf("%s #%d", r.txt, n[r.txt])
+		}
+	}
+	if l, ok := ex.retLabels[in]; ok {
+		return l
+	}
+	return ""
 }
